@@ -185,3 +185,11 @@ Definition encode_claim_event (f : claim_fields) : bytes :=
   concat (map enc_static [VNum (cf_gi f); VNum (cf_onet f); VNum (cf_oaddr f); VNum (cf_daddr f); VNum (cf_amount f)]).
 Definition claim_fields_ok (f : claim_fields) : Prop :=
   cf_gi f < two256 /\ cf_onet f <= max_u32 /\ cf_oaddr f < two160 /\ cf_daddr f < two160 /\ cf_amount f < two256.
+(* pre-Etrog bridge: event ClaimEvent(uint32 index, uint32 originNetwork, address originAddress, address destinationAddress, uint256 amount);
+   buildClaimEventHandlerPreEtrog records GlobalIndex = index *)
+Definition claim_event_pre_tys : list aty := [TU32; TU32; TAddr; TAddr; TU256].
+Definition decode_claim_event_pre (data : bytes) : option claim_fields :=
+  match abi_unpack claim_event_pre_tys data with
+  | Some [VNum gi; VNum onet; VNum oaddr; VNum daddr; VNum amount] => Some (mkCF gi onet oaddr daddr amount)
+  | _ => None
+  end.
